@@ -618,6 +618,33 @@ func cfcaSignE2(t *engine.T, fms map[string]*family, n int) {
 				if cbad == nil {
 					t.Fail("cfca/different-content-verifies/"+m.name+"/"+src, "%s: verifies with %s", shape, engine.Hex(alt))
 				}
+				// every source-taking wrapper on every artefact (also the ones made for another wrapper): whatever the
+				// artefact carries inside, a wrapper that is handed a source or digest accepts only the signed one
+				for vi, srcv := range [][]byte{flipFirst(content), nil, {}, append(append([]byte{}, content...), 0)} {
+					if bytes.Equal(srcv, content) {
+						continue
+					}
+					var e error
+					if t.Guard("cfca/cross/VerifyMessageDetach", func() { e = cfca.VerifyMessageDetach(a, srcv) }) {
+						continue
+					}
+					t.Eval(1)
+					if e == nil {
+						t.Fail("cfca/different-content-verifies/cross/VerifyMessageDetach/"+m.name+"/"+src, "%s: VerifyMessageDetach accepts the source #%d %s for an artefact signed over %s", shape, vi, engine.Hex(srcv), engine.Hex(content))
+					}
+				}
+				if dg, derr := sm2Digest(id, content); derr == nil {
+					for vi, dv := range [][]byte{flipFirst(dg), nil, dg[:31], append(append([]byte{}, dg...), 0)} {
+						var e error
+						if t.Guard("cfca/cross/VerifyDigestDetach", func() { e = cfca.VerifyDigestDetach(a, dv) }) {
+							continue
+						}
+						t.Eval(1)
+						if e == nil {
+							t.Fail("cfca/different-content-verifies/cross/VerifyDigestDetach/"+m.name+"/"+src, "%s: VerifyDigestDetach accepts the digest #%d %s; the signed content has digest %s", shape, vi, engine.Hex(dv), engine.Hex(dg))
+						}
+					}
+				}
 				checkBER(t, "cfca-signed", a, nil)
 			}
 		}
